@@ -167,6 +167,18 @@ def window_store(p):
         ok, _ = guarded(p, b, g_cmp("Lt", False, lambda x: is_free(strip_refs(x)), lambda y: strip_refs(y) == L))
     if not ok:
         out["problems"].append("the copy is not behind the check `self.free < encoded.len()` on the same length")
+    # every subtraction from `free` in push happens behind a test that what is taken off fits (a `free - len` hoisted above
+    # the space guard panics, with overflow checks, exactly when the buffer is too small - the case push must survive)
+    for ab in sorted(p.live_blocks()):
+        t_ = p.term(ab)
+        if t_["k"] == "Assert" and str(t_.get("kind", "")).startswith("Overflow:Sub"):
+            ops = [strip_refs(p.term_of_operand(o, ab)) for o in t_["ops"]]
+            if len(ops) == 2 and is_free(ops[0]):
+                okg, _ = guarded(p, ab, g_cmp("Lt", False, lambda x: is_free(strip_refs(x)), lambda y, o_=ops[1]: strip_refs(y) == o_))
+                if not okg:
+                    out["problems"].append("`self.free - %s` is computed before the test that it fits" % tstr(ops[1])[:60])
+            elif any(is_free(o) for o in ops):
+                out["problems"].append("`free` is subtracted from something in push")
     # free: one write, = free - L, after the copy on every way on
     fw = [(wb, wi, strip_refs(p.term_of_rvalue(s["rv"], wb))) for wb, wi, s in p.stmts() if s["k"] == "Assign" and s["p"]["proj"] and p.place_str(s["p"]) == "(*self).free"]
     out["free_writes"] = fw
